@@ -62,11 +62,12 @@ type Thread struct {
 
 // VTimer is a virtual timer.
 type VTimer struct {
-	ID    int
-	Due   int64
-	C     chan time.Time
-	State int32 // 0 pending, 1 fired, 2 stopped
-	Fn    func()
+	Creator int64 // goroutine id of the creator: creation order of goroutines is program order, arrival order here is not
+	ID      int
+	Due     int64
+	C       chan time.Time
+	State   int32 // 0 pending, 1 fired, 2 stopped
+	Fn      func()
 }
 
 // Event is a harness-defined environment event.
@@ -89,7 +90,11 @@ type Choice struct {
 	N    int    // size of the enabled set
 	C    int    // index taken
 	What string // description of what was taken
+	En   string // description of the whole enabled set
 }
+
+// DebugParentEnabled: descriptions of the enabled sets of the execution whose prefix is being replayed (diagnostics).
+var DebugParentEnabled []string
 
 type Exec struct {
 	active         bool
@@ -121,9 +126,11 @@ type Exec struct {
 	UserData        interface{}
 	exited          chan struct{} // harness threads signal their exit here (a real happens-before edge for the harness's final reads)
 	lastDumpCount   int           // runtime.NumGoroutine() at the last full dump
+	lastProbe       int64         // goroutine id of the last probe goroutine
 	released        *Thread
 	FullDumps       int
 	FastSteps       int
+	TimersFired     int
 	stackBuf        []byte
 }
 
@@ -365,6 +372,17 @@ func (x *Exec) Logf(f string, a ...interface{}) {
 
 // ---- virtual time --------------------------------------------------------------
 
+// TimersFired reports how many virtual timers the scheduler has fired in the current execution.
+//
+//go:norace
+func TimersFired() int {
+	x := cur
+	if x == nil {
+		return 0
+	}
+	return x.TimersFired
+}
+
 //go:norace
 func NowNS() int64 {
 	x := cur
@@ -386,6 +404,7 @@ func NewVTimer(d int64, fn func()) *VTimer {
 		d = 0
 	}
 	vt.Due = x.now + d
+	vt.Creator = curGoid()
 	vt.ID = x.ntimers
 	if x.ntimers < maxTimers {
 		x.timers[x.ntimers] = vt
@@ -446,7 +465,7 @@ func (x *Exec) describe(it enabledItem) string {
 		}
 		return n + ":" + it.t.op.String() + ":" + it.t.label
 	case it.vt != nil:
-		return "fire-timer#" + strconv.Itoa(it.vt.ID)
+		return "fire-timer#" + strconv.Itoa(it.vt.ID) + "@" + strconv.FormatInt(it.vt.Due/1000000, 10) + "ms"
 	default:
 		return "event:" + it.ev.Name
 	}
@@ -482,6 +501,14 @@ func (x *Exec) fastQuiescent() bool {
 		return false
 	}
 	if runtime.NumGoroutine() != x.lastDumpCount {
+		return false
+	}
+	// no goroutine may have been created in this step: goroutine ids are handed out in increasing
+	// order (one P), so a probe goroutine must get the id right after the previous probe's
+	probe := maxGoid()
+	fresh := probe != x.lastProbe+1
+	x.lastProbe = probe
+	if fresh {
 		return false
 	}
 	for i := 0; i < x.nthreads; i++ {
@@ -566,6 +593,7 @@ func (x *Exec) waitQuiescent() bool {
 				}
 			}
 			x.lastDumpCount = runtime.NumGoroutine()
+			x.lastProbe = maxGoid()
 			return true
 		}
 		if spin > 50 {
@@ -603,6 +631,9 @@ func (x *Exec) threadLess(a, b *Thread) bool {
 func timerLess(a, b *VTimer) bool {
 	if a.Due != b.Due {
 		return a.Due < b.Due
+	}
+	if a.Creator != b.Creator {
+		return a.Creator < b.Creator
 	}
 	return a.ID < b.ID
 }
@@ -678,7 +709,11 @@ func (x *Exec) Run() {
 				for _, it := range en {
 					desc += x.describe(it) + ", "
 				}
-				x.Nondet = fmt.Sprintf("step %d: %d enabled on replay (%s), %d when recorded", step, len(en), desc, x.prefixN[step])
+				rec := ""
+				if step < len(DebugParentEnabled) {
+					rec = DebugParentEnabled[step]
+				}
+				x.Nondet = fmt.Sprintf("step %d: %d enabled on replay (%s), %d when recorded (%s)", step, len(en), desc, x.prefixN[step], rec)
 				break
 			}
 			if c >= len(en) {
@@ -687,7 +722,11 @@ func (x *Exec) Run() {
 			}
 		}
 		it := en[c]
-		x.Trace = append(x.Trace, Choice{N: len(en), C: c, What: x.describe(it)})
+		all := ""
+		for _, e := range en {
+			all += x.describe(e) + ", "
+		}
+		x.Trace = append(x.Trace, Choice{N: len(en), C: c, What: x.describe(it), En: all})
 		switch {
 		case it.t != nil:
 			t := it.t
@@ -705,6 +744,7 @@ func (x *Exec) Run() {
 			x.released = nil
 			vt := it.vt
 			vt.State = 1
+			x.TimersFired++
 			if vt.Due > x.now {
 				x.now = vt.Due
 			}
